@@ -203,16 +203,17 @@ func (d *Def) PosIn(r *R, a DatumArea) (lon, lat float64, ok bool) {
 
 // Options steer Gen.
 type Options struct {
-	Projs       []string // allowed projections (nil = all)
-	DatKinds    []string // allowed datum kinds (nil = all four)
-	NoPM        bool
-	NoUnits     bool
-	PlainEll    bool // only named ellipsoids / a+rf (WKT-expressible)
-	Area        *DatumArea
-	SmallTowgs  bool // random towgs84 limited to |t|<=100 m, |r|<=1", |s|<=2 ppm
-	NoBothDatum bool // never combine a named datum with an explicit towgs84
-	NoOmit      bool // never leave out default-valued clauses
-	AllowRA     bool // +R_A may be added to definitions without a datum (C08 only: under +R_A the port, proj4js and PROJ.4 disagree about Mercator, so there is no oracle for C09, and with a datum shift the 2-D round trip loses the height of the sphere against the ellipsoid)
+	Projs        []string // allowed projections (nil = all)
+	DatKinds     []string // allowed datum kinds (nil = all four)
+	NoPM         bool
+	NoUnits      bool
+	PlainEll     bool // only named ellipsoids / a+rf (WKT-expressible)
+	Area         *DatumArea
+	SmallTowgs   bool // random towgs84 limited to |t|<=100 m, |r|<=1", |s|<=2 ppm
+	NoBothDatum  bool // never combine a named datum with an explicit towgs84
+	NoOmit       bool // never leave out default-valued clauses
+	KrovakAnyEll bool // Krovak definitions keep whatever ellipsoid clause was drawn (or none) instead of +ellps=bessel
+	AllowRA      bool // +R_A may be added to definitions without a datum (C08 only: under +R_A the port, proj4js and PROJ.4 disagree about Mercator, so there is no oracle for C09, and with a datum shift the 2-D round trip loses the height of the sphere against the ellipsoid)
 }
 
 // AllProjs lists the supported projections.
@@ -469,7 +470,11 @@ func Gen(r *R, o *Options) *Def {
 		// the zone / the Krovak constants are tied to Greenwich longitudes
 		d.PM, d.PMDeg = "", 0
 	}
-	if d.Proj == "krovak" {
+	if d.Proj == "krovak" && o.KrovakAnyEll {
+		if r.Bool() {
+			d.Ell, d.EllKind = "", "default" // no ellipsoid clause at all
+		}
+	} else if d.Proj == "krovak" {
 		// Krovak is defined on the Bessel ellipsoid (the implementation hard-wires it)
 		if d.DatKind == "named" {
 			d.Datum, d.DatName = " +datum=s_jtsk", "s_jtsk"
